@@ -436,6 +436,10 @@ def mon_c16(sc, prof, pairs):
         line = sc.lines[int(i["step"])]
         op = line.split()[0]
         if "wleaf" in line: wrote = True
+        if i["status"] == "abort":
+            out.append(Failure(sc, prof, i["step"], f"{line}: the process aborted ({i.get('cause', '?')}): the panic of the user code could not be caught "
+                               f"(a second panic while the half-built / half-updated container was being dropped)", f"C16:{op}:abort", {"I": i["raw"]}))
+            break
         if i.get("regs", "~") == "~": continue
         regs = parse_regs(i["regs"])
         faulty = ("panic=" in line) or (int(i["step"]) > 0 and sc.lines[int(i["step"]) - 1].split()[0] in ("clonefuse", "cmpfuse"))
@@ -445,7 +449,7 @@ def mon_c16(sc, prof, pairs):
         if not wrote and not aligned_ok(regs, kinds):
             out.append(Failure(sc, prof, i["step"], f"{line}: a position holds fields of different elements: {i['regs']}", f"C16:{op}:aligned", {"I": i["raw"]}))
             break
-        if faulty and i["status"] == "panic" and prev is not None and op in ("retain", "retain_mut", "sort", "refs", "to_vec"):
+        if faulty and i["status"] == "panic" and prev is not None and op in ("retain", "retain_mut", "sort", "refs", "to_vec", "to_vec_sm", "to_vec_ts", "to_vec_tsm"):
             before = sorted(r for c in parse_regs(prev) for r in rows_of(c)); after = sorted(r for c in regs for r in rows_of(c))
             if not wrote and before != after:
                 out.append(Failure(sc, prof, i["step"], f"{line}: elements lost or duplicated by the caught panic: before={prev} after={i['regs']}", f"C16:{op}:elements", {"I": i["raw"]}))
